@@ -21,6 +21,7 @@ type c03case struct {
 	where  int
 	having int
 	order  bool // explore map iteration orders (on a subset of tables)
+	limit  int  // LIMIT on the grouped / aggregated result (-1: none)
 }
 
 type c03 struct {
@@ -80,7 +81,14 @@ func (p *c03) Init(tier string) {
 					if g == nil && hi != 0 {
 						continue
 					}
-					p.cases = append(p.cases, c03case{group: g, list: li, where: wi, having: hi})
+					p.cases = append(p.cases, c03case{group: g, list: li, where: wi, having: hi, limit: -1})
+					// LIMIT applies to the groups / to the single aggregate row, never to the rows the
+					// aggregates range over
+					if (li == 0 || li == 1 || li == 5) && wi <= 1 && hi <= 1 {
+						for _, lim := range []int{0, 1, 2} {
+							p.cases = append(p.cases, c03case{group: g, list: li, where: wi, having: hi, limit: lim})
+						}
+					}
 				}
 			}
 		}
@@ -90,7 +98,7 @@ func (p *c03) Init(tier string) {
 		for li := range c03Lists {
 			for _, wi := range []int{0, 3} {
 				for _, hi := range []int{0, 1} {
-					p.cases = append(p.cases, c03case{group: g, list: li, where: wi, having: hi, order: true})
+					p.cases = append(p.cases, c03case{group: g, list: li, where: wi, having: hi, order: true, limit: -1})
 				}
 			}
 		}
@@ -162,6 +170,7 @@ func (p *c03) sel(c *c03case) *Select {
 	s.Where = c03Wheres[c.where]
 	s.GroupBy = c.group
 	s.Having = c03Havings[c.having]
+	s.Limit = c.limit
 	return s
 }
 
@@ -271,6 +280,9 @@ func (p *c03) reference(c *c03case, rows []any) c03ref {
 		out.rows = append(out.rows, gq.Render(row))
 		out.groups++
 	}
+	if c.limit >= 0 && len(out.rows) > c.limit {
+		out.rows = out.rows[:c.limit]
+	}
 	return out
 }
 
@@ -285,6 +297,9 @@ func (p *c03) sig(c *c03case, mode string) string {
 	}
 	if c.having != 0 {
 		h = "yes"
+	}
+	if c.limit >= 0 {
+		h += "|limit"
 	}
 	return fmt.Sprintf("C03|group=%s|list=%s|where=%s|having=%s|%s", g, c03Lists[c.list].name, w, h, mode)
 }
@@ -390,7 +405,7 @@ func (p *c03) runOrder(r *core.CaseResult, c *c03case, sql string) {
 
 func (p *c03) Meta() core.Meta {
 	return core.Meta{
-		Rule: "one case per query = (grouping set in {none, g, h, (g,h), (h,g)}) x (select list: keys+COUNT(*) | SUM on two columns | the same functions on two nested columns with the same final name | MIN/MAX on two columns | AVG,COUNT(*),COUNT(col) | keys+* | aggregates only | same call twice) x (5 WHEREs incl. always-false) x (4 HAVINGs), each run on every table of <= 3 (thorough 4) rows over 6 archetypes with NULL group keys and NULL aggregate inputs, compared as a sequence with the reference group-by; plus map-order cases: the grouped queries on a table subset under every Go-map iteration order within deviation bound 1 (thorough 2). non-trivial = reference has >= 2 groups (or a whole-table aggregate over >= 2 rows); for map-order cases: more than one iteration order was executed",
+		Rule: "one case per query = (grouping set in {none, g, h, (g,h), (h,g)}) x (select list: keys+COUNT(*) | SUM on two columns | the same functions on two nested columns with the same final name | MIN/MAX on two columns | AVG,COUNT(*),COUNT(col) | keys+* | aggregates only | same call twice) x (5 WHEREs incl. always-false) x (4 HAVINGs) (a subset also with LIMIT 0/1/2 on the result), each run on every table of <= 3 (thorough 4) rows over 6 archetypes with NULL group keys and NULL aggregate inputs, compared as a sequence with the reference group-by; plus map-order cases: the grouped queries on a table subset under every Go-map iteration order within deviation bound 1 (thorough 2). non-trivial = reference has >= 2 groups (or a whole-table aggregate over >= 2 rows); for map-order cases: more than one iteration order was executed",
 		Assumptions: []string{
 			"reference: SUM/MIN/MAX ignore NULL members and are NULL without non-NULL members; AVG and COUNT(col) only on NULL-free columns (abstains otherwise); HAVING only over NULL-free aggregate values",
 			"aggregate select items are always aliased (the property fixes no column name for COUNT(*))",
